@@ -1275,6 +1275,15 @@ class Interp:
                 return 'True' if self.branch(v.e, node) else 'False'
         if isinstance(v, (tuple, list)) and all(is_native(x) for x in v):
             return str(v)
+        if isinstance(v, (tuple, list)) and all(is_native(x) or isinstance(x, Z) and self.sort_name(x) == 'Int' for x in v):
+            # repr of a sequence with symbolic integers (only ever used inside messages): kept as structured text
+            parts = ['(' if isinstance(v, tuple) else '[']
+            for i, x in enumerate(v):
+                if i:
+                    parts.append(', ')
+                parts.append(SymIntStr(x) if isinstance(x, Z) else repr(x))
+            parts.append(')' if isinstance(v, tuple) else ']')
+            return FString(parts)
         if hasattr(v, 'py_str'):
             return v.py_str(self, node)
         raise CheckerError(f'str() of {v!r} unsupported at line {getattr(node, "lineno", "?")}')
@@ -1793,6 +1802,8 @@ class Interp:
         w = self.w
         if isinstance(v, Foreign):
             return False
+        if hasattr(v, 'isinstance_of'):
+            return v.isinstance_of(self, t, node)
         if isinstance(t, ClassVal):
             if isinstance(v, Z):
                 sn = self.sort_name(v)
